@@ -660,9 +660,24 @@ def gen_xorder(rng):
         if rng.random() < 0.5:
             a, b = b, a
         return xcase("gl", a, b, x_orders(rng, p_vars(a) + p_vars(b)))
-    if k < 0.4:
+    if k < 0.36:
         a, b = x_poly(rng, rng.sample(vs, 2)), x_poly(rng, rng.sample(vs, 2))
         return xcase("ar", a, b, x_orders(rng, p_vars(a) + p_vars(b)))
+    if k < 0.44:
+        # observers (is_assigned under every partial assignment, is_constant, degree, lc sign, variables, ...)
+        sh = rng.random()
+        if sh < 0.1:
+            a = {(): rng.choice([0, 3, -2])}
+        elif sh < 0.35:
+            a = p_norm({((v, 1),): rng.choice([1, -2, 3]) for v in rng.sample(vs, rng.randint(1, 3))})      # linear
+            if rng.random() < 0.5:
+                a[()] = rng.choice([1, -5])
+        elif sh < 0.5:
+            a = x_poly(rng, rng.sample(vs, 1), rng.choice([1, 2, 3]), 3)                                     # univariate
+        else:
+            a = x_poly(rng, rng.sample(vs, rng.randint(2, 4)), rng.choice([2, 3, 4]))
+        a = p_norm(a)
+        return xcase("obs", a, None, x_orders(rng, p_vars(a)))
     if k < 0.55:
         sh = rng.sample(vs, 2)
         a = p_add(x_poly(rng, sh, 2), x_poly(rng, vs, 1))
